@@ -96,6 +96,16 @@ def shrink_sync(case: dict, clause: str) -> dict:
     return cur
 
 
+def guarded(ctx: Ctx, case: dict, fn: Any, *args: Any) -> Any:
+    """Run the real code; a harness-level exception (e.g. the constructor rejects the configuration) becomes an
+    output the model cannot reproduce instead of crashing the whole check."""
+    try:
+        return fn(*args)
+    except Exception as e:  # pylint: disable=broad-except
+        ctx.case(case, tags=["impl-error:" + type(e).__name__], nontrivial=False)
+        return {"error": type(e).__name__}
+
+
 def check_sync(ctx: Ctx, case: dict, shrink_budget: list[int]) -> dict:
     out = g.run_sync(case)
     orc = sync_oracle(case, out)
@@ -253,7 +263,12 @@ def pool_actor_model_cases(case: dict) -> list[dict]:
 
 
 def check_pool_actor(ctx: Ctx, cases: list[dict]) -> None:
-    impl = [g.run_pool_actor(c) for c in cases]
+    all_impl = [guarded(ctx, c, g.run_pool_actor, c) for c in cases]
+    for c, o in zip(cases, all_impl):
+        if "error" in o:
+            ctx.mismatch(c, o, None, "pool tracker with real battery trackers: the real code raised")
+    cases = [c for c, o in zip(cases, all_impl) if "error" not in o]
+    impl = [o for o in all_impl if "error" not in o]
     for c, o in zip(cases, impl):
         for a, ob in zip(c["actions"], o["obs"]):
             req = set(a.get("req", c["bats"]))
@@ -407,12 +422,17 @@ def run_cases(ctx: Ctx, sync_cases: list[dict], actor_cases: list[dict], fold_ca
               pool_cases: list[dict]) -> None:
     shrink_budget = [3]
     # sync
-    impl = [check_sync(ctx, c, shrink_budget) for c in sync_cases]
+    impl = [guarded(ctx, c, check_sync, ctx, c, shrink_budget) for c in sync_cases]
     diff(ctx, sync_cases, impl, model(ctx, sync_cases), "sync seam: real _run loop body vs step")
     # actor
     pred_cases, pred_impl, replays = [], [], []
     for c in actor_cases:
-        im, rp, race = check_actor(ctx, c)
+        res = guarded(ctx, c, check_actor, ctx, c)
+        if isinstance(res, dict):
+            pred_cases.append(c)
+            pred_impl.append(res)
+            continue
+        im, rp, race = res
         replays.append(rp)
         if not race:
             pred_cases.append(c)
@@ -432,9 +452,10 @@ def run_cases(ctx: Ctx, sync_cases: list[dict], actor_cases: list[dict], fold_ca
     # pool
     fimpl = []
     for c in fold_cases:
-        o = g.run_pool_fold(c)
-        pool_fold_oracle(ctx, c, o)
-        ctx.case(c, tags=["pool-fold"], nontrivial=any("get" in op for op in c["ops"]))
+        o = guarded(ctx, c, g.run_pool_fold, c)
+        if "error" not in o:
+            pool_fold_oracle(ctx, c, o)
+            ctx.case(c, tags=["pool-fold"], nontrivial=any("get" in op for op in c["ops"]))
         fimpl.append(o)
     diff(ctx, fold_cases, fimpl, model(ctx, fold_cases), "pool tracker fed with status sequences vs model")
     if pool_cases:
